@@ -362,6 +362,29 @@ def run_bulk(key):
             F = np.asarray(Fn)
             t += 0.4
         res["states"] += 1
+    # two DISTINCT mineral objects that are equal in content (built from the same arguments)
+    # in one list, around another mineral: every entry is advanced, and like its twin
+    # (seed C08h: the list de-duplicated with the content-based ==)
+    for pos in ((0, 1), (0, 2)):
+        ms = make_minerals(dict(key, nmin=2))
+        twin = make_minerals(dict(key, nmin=2))[0]
+        lst = [ms[0], ms[1]]
+        lst.insert(pos[1], twin)
+        F, t = H.f0("generic"), 0.0
+        res["clauses"]["equal_minerals_all_advanced"] = res["clauses"].get("equal_minerals_all_advanced", 0) + 1
+        try:
+            for j, fl in enumerate(fls):
+                res["n"] += 1
+                with H.time_limit():
+                    F = np.asarray(pd.update_all(lst, prm, F, fl.L, (t, t + 0.4, fl.x)))
+                t += 0.4
+            lens = [len(m.orientations) for m in lst]
+            same = np.array_equal(ms[0].orientations[-1], twin.orientations[-1]) and np.array_equal(ms[0].fractions[-1], twin.fractions[-1])
+            if lens != [len(fls) + 1] * 3 or not same:
+                H.V(res, key, "equal_minerals_all_advanced", {"snapshots_per_list_entry": lens, "twins_identical": bool(same)}, twin_at=pos[1])
+        except Exception as e:
+            H.V(res, key, "equal_minerals_all_advanced", {"exception": type(e).__name__, "msg": str(e)[:200]}, twin_at=pos[1])
+        res["states"] += 1
     res["outcomes"].append(digest(*[np.round(o, 9) for o in obs]))
     res["obs"] = digest(*obs)
     res["sample"] = {"case": key}
